@@ -1,7 +1,7 @@
 (** Proofs about Core/Render.v: `capture` binds exactly the text its block
     would have written, and writes nothing itself. *)
 From LQ Require Import Core.Render Proofs.Render_buffer Proofs.Render_counters Proofs.Render_fuel.
-From Coq Require Import Lia.
+From Coq Require Import Lia ZArith.
 
 (** what the capture tag does: the block runs against a fresh buffer; the
     caller's buffer comes back untouched whatever the outcome *)
@@ -179,3 +179,43 @@ Example unless_example :
   eval 1 c (ELit VNil) <> EFuel /\
   text (bf (render g [] 3 (NUnless (ELit VNil) [NContent [97]%N false] [] None) c empty_buf)) = [97]%N.
 Proof. vm_compute. split; [discriminate|reflexivity]. Qed.
+
+(** * include shares the caller's context *)
+
+(** `{% include 'p' %}` where p is `{% assign x = v %}`: unlike `render`, the
+    included template runs in the caller's context - afterwards the caller has [x]
+    bound to [v] as a local and everything else (scopes, template name, counters,
+    ...) exactly as before. *)
+Theorem include_assign_is_visible_after g ld f tn x v c b :
+  mem_str s_include (disabled c) = false ->
+  assoc tn ld = Some [NAssign x (ELit v)] ->
+  has_forloop v = false ->
+  (depth_limit g <? scope_size c + 1)%Z = false ->
+  render g ld (S (S (S f))) (NInclude (ELit (VStr tn)) None []) c b
+  = mk SDone (set_locals c (dict_set x v (locals c))) b.
+Proof.
+  intros Hdis Hld Hf Hd.
+  assert (Hd0 : (depth_limit g <? scope_size c)%Z = false) by (apply Z.ltb_ge; apply Z.ltb_ge in Hd; lia).
+  change (render g ld (S (S (S f))))
+    with (render_step g ld (eval (S (S f))) (render g ld (S (S f)))).
+  cbn [render_step]. unfold render_include. rewrite Hdis.
+  cbn [eval eval_step]. rewrite Hld.
+  unfold eval_namespace. cbn [eval_pairs dict_of_pairs].
+  unfold extend at 1. rewrite Hd0.
+  unfold partial_template, extend.
+  unfold scope_size in *. cbn [scopes set_tname set_scopes length].
+  replace (Z.of_nat (S (length (scopes c))) + 4)%Z with (Z.of_nat (length (scopes c)) + 4 + 1)%Z by lia.
+  rewrite Hd.
+  change (render g ld (S (S f))) with (render_step g ld (eval (S f)) (render g ld (S f))).
+  cbn [nodes render_step eval eval_step]. rewrite Hf.
+  cbn [st cx bf mk nodes]. 
+  destruct c; reflexivity.
+Qed.
+
+Example include_example :
+  let g := {| suppress := false; depth_limit := 30 |} in
+  let ld := [([112]%N, [NAssign [120]%N (ELit (VInt 7))])] in
+  let c := fresh_ctx 30 [] [] in
+  text (bf (nodes (render g ld 4) [NInclude (ELit (VStr [112]%N)) None []; NOutput (EPath [120]%N [])] c empty_buf)) = [55]%N
+  /\ text (bf (nodes (render g ld 4) [NRender [112]%N None []; NOutput (EPath [120]%N [])] c empty_buf)) = [].
+Proof. vm_compute. split; reflexivity. Qed.
